@@ -484,7 +484,7 @@ func (x *Exec) run(init *State) {
 			panic(unsupported{fmt.Sprintf("path budget exceeded (%d paths)", x.maxPaths)})
 		}
 		for !st.dead {
-			more := x.step(st)
+			more := x.safeStep(st)
 			if len(more) > 0 {
 				stack = append(stack, more...)
 			}
@@ -494,6 +494,29 @@ func (x *Exec) run(init *State) {
 			}
 		}
 	}
+}
+
+// safeStep runs one step; a construct outside the modelled subset does not abort the whole function: the path
+// on which it occurs must be unreachable (obligation with goal false), otherwise the machinery reports an error.
+func (x *Exec) safeStep(st *State) (more []*State) {
+	defer func() {
+		if r := recover(); r != nil {
+			u, ok := r.(unsupported)
+			if !ok {
+				panic(r)
+			}
+			fr := st.top()
+			pos := token.NoPos
+			if fr.pc < len(fr.block.Instrs) {
+				pos = fr.block.Instrs[fr.pc].Pos()
+			}
+			name := fmt.Sprintf("%s/unmodelled@%s", x.curFunc, x.siteName(fr, pos))
+			x.oblige(st, name, "unmodelled", nil, tFalse, pos, "path reaching an unmodelled construct must be unreachable: "+u.msg)
+			st.dead = true
+			more = nil
+		}
+	}()
+	return x.step(st)
 }
 
 // step executes one instruction of the top frame; may return forked states to explore later.
@@ -2000,6 +2023,8 @@ func (x *Exec) contractMods(c *Contract, ms *modset) {
 			ms.heapAll = true
 		case l == "*":
 			ms.all = true
+		case strings.HasPrefix(l, "stream("):
+			ms.heapAll = true
 		case strings.HasPrefix(l, "elems("):
 			ms.elems = true
 		case strings.HasPrefix(l, "map("):
